@@ -820,6 +820,7 @@ def _resolve_action_conflicts(
                         and winning_event.action_uid
                         and isinstance(competing_event, ActionEvent)
                         and competing_event.action_uid
+                        and competing_event.action_uid != winning_event.action_uid
                     ):
                         # All heads that are on the exact same action as the winning head
                         # need to replace their action references with the winning heads action reference
